@@ -442,7 +442,7 @@ fn main() {
         let audited = AtomicU64::new(0);
         let nontrivial = AtomicU64::new(0);
         let divergence: Mutex<Option<String>> = Mutex::new(None);
-        let opts = DfsOpts { bound: 0, jobs: r.args.jobs, max_executions: r.tier().pick(3_000_000, 60_000_000), wall: Duration::from_secs(if thorough { 600 } else { 40 }), ..Default::default() };
+        let opts = DfsOpts { bound: 0, jobs: r.args.jobs, max_executions: r.tier().pick(3_000_000, 60_000_000), wall: Duration::from_secs(if thorough { 1500 } else { 90 }), ..Default::default() };
         let fails_ref = &fails[..];
         let res = explore(&opts, |ch| {
             let out = one_execution(pr, fails_ref, ch);
